@@ -22,6 +22,7 @@ DOCS = {
  'nested': '<svg xmlns="http://www.w3.org/2000/svg" viewBox="0 0 20 20"><svg x="2" y="2" width="10" height="10" viewBox="0 0 5 5"><rect width="5" height="5" fill="green"/></svg><polygon points="1,1 4,1 4,4"/></svg>',
  'noise': '<svg xmlns="http://www.w3.org/2000/svg" xmlns:foo="http://foo" viewBox="0 0 8 8"><?pi x?><symbol><rect width="1" height="1"/></symbol><foo:bar/><path d="M0,0 L4,0 4,4 0,4 z M1,1 L3,1 3,3 1,3 z" fill-rule="evenodd" foo:attr="1"/><ellipse cx="4" cy="4" rx="2" ry="1" stroke="red" stroke-width="0.5" fill="none"/></svg>',
  'styled': '<svg xmlns="http://www.w3.org/2000/svg" viewBox="0 0 10 10"><g fill="red"><rect width="2" height="2" style="fill:black;stroke:none;bogus:1"/><rect x="3" width="2" height="2" fill="black" style="opacity:1"/></g><path d="M0,0 L1,1" style="fill-opacity:1.0"/></svg>',
+ 'unpainted': '<svg xmlns="http://www.w3.org/2000/svg" viewBox="0 0 10 10"><path d="M1,1"/><rect width="3" height="3" fill="none"/><g opacity="0.5"><rect x="4" width="3" height="3"/><path d="M0,0 L5,0" /></g><circle cx="5" cy="5" r="1"/></svg>',
  'pico': '<svg xmlns="http://www.w3.org/2000/svg" viewBox="0 0 10 10"><defs/><path d="M1,1 L5,1 L5,5 Z" fill="red"/><path d="M-5,-5 L-1,-5 L-1,-1 Z"/></svg>',
 }
 
